@@ -77,6 +77,7 @@ class PathCtx:
         self.concretize_limit = concretize_limit
         self.notes = []
         self._bitcache = None
+        self.loop_obligations = []
 
     # -- solver -------------------------------------------------------------
     def _check(self, *extra):
@@ -206,7 +207,7 @@ class PathCtx:
 
 
 class Path:
-    __slots__ = ("constraints", "kind", "value", "taken", "stringified", "symbols", "extra")
+    __slots__ = ("constraints", "kind", "value", "taken", "stringified", "symbols", "extra", "loop_obligations")
 
     def __init__(self, constraints, kind, value, taken, stringified, symbols):
         self.constraints = constraints
@@ -216,6 +217,7 @@ class Path:
         self.stringified = stringified
         self.symbols = symbols
         self.extra = None
+        self.loop_obligations = []
 
 
 def explore(thunk, base=(), stats=None, timeout_ms=10000, max_paths=20000, concretize_limit=64,
@@ -241,6 +243,10 @@ def explore(thunk, base=(), stats=None, timeout_ms=10000, max_paths=20000, concr
                 continue
             except Unsupported as e:
                 kind, v = "unsupported", e
+            except _loopcut().PathEnd:
+                kind, v = "cut", None
+            except _loopcut().LoopObligationFailed as e:
+                kind, v = "loopfail", e
             except SideObligationFailed as e:
                 kind, v = "side", e
             except (Budget, KeyboardInterrupt, SystemExit):
@@ -257,8 +263,16 @@ def explore(thunk, base=(), stats=None, timeout_ms=10000, max_paths=20000, concr
         finally:
             sym.set_ctx(old)
         work.extend(c.alternatives)
-        paths.append(Path(c.all_constraints(), kind, v, c.taken, c.stringified, c.symbols))
+        p = Path(c.all_constraints(), kind, v, c.taken, c.stringified, c.symbols)
+        p.loop_obligations = c.loop_obligations
+        paths.append(p)
     return paths
+
+
+def _loopcut():
+    from . import loopcut
+
+    return loopcut
 
 
 # --------------------------------------------------------------------------
@@ -266,7 +280,19 @@ def explore(thunk, base=(), stats=None, timeout_ms=10000, max_paths=20000, concr
 
 
 def model_value(m, t):
-    """z3 model value of term t as int / Fraction (algebraic numbers approximated)."""
+    """z3 model value of term t as int / Fraction (algebraic numbers approximated);
+    ("bytes", array, length) entries give the byte string arr[0..length)."""
+    if isinstance(t, tuple) and t[0] == "bytes":
+        n = m.eval(t[2], model_completion=True)
+        n = n.as_long() if z3.is_int_value(n) else 0
+        n = max(0, min(n, 1 << 16))
+        out = bytearray()
+        for k in range(n):
+            b = m.eval(z3.Select(t[1], z3.IntVal(k)), model_completion=True)
+            out.append(b.as_long() % 256 if z3.is_int_value(b) else 0)
+        return bytes(out)
+    if t is None:
+        return None
     v = m.eval(t, model_completion=True)
     if z3.is_int_value(v):
         return v.as_long()
